@@ -501,6 +501,7 @@ func (vc *VC) comp(st *State, name, sort string, vt ...types.Type) string {
 	// first touch anywhere: the initial (entry) version; all states created later inherit it through
 	// the root lookup below.
 	fresh := !vc.declared[q("H0 "+name)]
+	vc.ensureSorts(sort)
 	init := vc.declare("H0 "+name, sort)
 	vc.compSorts[name] = sort
 	st.heap[name] = init
@@ -508,6 +509,27 @@ func (vc *VC) comp(st *State, name, sort string, vt ...types.Type) string {
 		vc.assertCompWF(init, name, q("alloc0"))
 	}
 	return init
+}
+
+// ensureSorts declares (in this VC) every struct sort that a sort expression mentions: a sort string can reach a VC
+// from elsewhere (the dry run of a loop, a contract's modifies clause) before any value of that type was seen here.
+func (vc *VC) ensureSorts(sort string) {
+	parts := strings.Split(sort, "|")
+	for i := 1; i < len(parts); i += 2 {
+		name := parts[i]
+		if vc.structs[name] {
+			continue
+		}
+		if name == "struct{}" {
+			vc.sortOf(types.NewStruct(nil, nil))
+			continue
+		}
+		if t := vc.prog.namedType(name); t != nil {
+			if _, ok := t.Underlying().(*types.Struct); ok {
+				vc.sortOf(t)
+			}
+		}
+	}
 }
 
 func fieldComp(structName, field string) string { return "F " + structName + "." + field }
